@@ -173,6 +173,106 @@ __all__ = ["Sub", "x"]
     },
 }
 
+PROGRAMS["optional"] = {
+    "qa.py": "name: str = 'x'\nversion: int = 1\ndef run(x: int) -> int: return x\n",
+    "qsub/__init__.py": "from . import inner as inner\n",
+    "qsub/inner.py": "name: str = 'inner'\ndef run(x: int) -> int: return x + 1\n",
+    "qb.py": '''
+from __future__ import annotations
+import qa
+import qsub.inner
+from typing import (Any, Callable, Final, Generic, Literal, NoReturn, Optional, Protocol, TypedDict, TypeVar, Union, overload)
+from typing_extensions import (Concatenate, NotRequired, ParamSpec, ReadOnly, Required, TypeGuard, TypeIs, TypeVarTuple, Unpack)
+class HasName(Protocol):
+    name: str
+    def run(self, x: int) -> int: ...
+def use(m: HasName) -> str: return m.name
+# module objects (types.ModuleType instances carrying ExtraAttrs) as protocol implementation and inside containers
+used = use(qa)
+pair = (qa, 1)
+triple = (qsub.inner, "s", None)
+table = {"k": qa}
+holder = [qa, qsub.inner]
+either = qa if int() else 1
+opt_mod = qa if int() else None
+class K:
+    mod = qa
+    pairs = (qa, qsub.inner)
+    def m(self, d=qa, t=(qa, 2)) -> None: ...
+def dflt(m=qa, n=(qa, 1)): return m
+def typed_dflt(m: HasName = qa) -> HasName: return m
+# rarely set optional fields of types: one symbol per field
+FIN: Final = 3
+FINS: Final = "lit"
+FINB: Final = True
+T = TypeVar("T")
+D = TypeVar("D", default=int)
+Bd = TypeVar("Bd", bound=int)
+Vs = TypeVar("Vs", int, str)
+Co = TypeVar("Co", covariant=True)
+P = ParamSpec("P")
+PD = ParamSpec("PD", default=[int, str])
+Ts = TypeVarTuple("Ts")
+TsD = TypeVarTuple("TsD", default=Unpack[tuple[int, str]])
+class GD(Generic[D]): ...
+class GP(Generic[P]): ...
+class GPD(Generic[PD]): ...
+class GT(Generic[Unpack[Ts]]): ...
+class GTD(Generic[Unpack[TsD]]): ...
+class GC(Generic[Co]): ...
+def bounded(x: Bd, y: Vs) -> tuple[Bd, Vs]: ...
+def conc(f: Callable[Concatenate[int, P], T]) -> Callable[P, T]: ...
+def prefixed(x: GP[Concatenate[int, str, P]]) -> GP[P]: ...
+def guard(x: object) -> TypeGuard[int]: ...
+def isit(x: object) -> TypeIs[str]: ...
+class TD(TypedDict, total=False):
+    a: Required[int]
+    b: ReadOnly[str]
+    c: int
+class TDR(TypedDict):
+    r: ReadOnly[int]
+    n: NotRequired[str]
+def kw(**k: Unpack[TD]) -> None: ...
+@overload
+def ov(x: int) -> int: ...
+@overload
+def ov(x: str) -> str: ...
+def ov(x: Any) -> Any: return x
+ovref = ov
+RG = Union[T, list["RG[T]"]]
+rg_use: RG[int]
+def nr() -> NoReturn: ...
+def none() -> None: ...
+ell: Callable[..., int]
+tt: type[K]
+lit: Literal[1, "a", True]
+pep: int | str
+old: Union[int, str]
+tup_var: tuple[int, ...]
+tup_unpack: tuple[int, Unpack[tuple[str, ...]]]
+missing_any: Any
+from nonexistent_mod_c11 import Thing  # type: ignore
+thing_var: Thing
+''',
+}
+
+# optional fields that must be NON-default somewhere in the fresh trees of the program corpus (own modules only);
+# checked on every run so that the corpus cannot silently stop covering a field
+REQUIRED_FEATURES = [
+    "Instance.args", "Instance.last_known_value", "Instance.extra_attrs", "ExtraAttrs.mod_name", "ExtraAttrs.attrs",
+    "Instance.extra_attrs@tuple", "Instance.extra_attrs@union",
+    "TypeVarType.values", "TypeVarType.upper_bound", "TypeVarType.default", "TypeVarType.variance",
+    "ParamSpecType.prefix", "ParamSpecType.default", "ParamSpecType.flavor", "TypeVarTupleType.default",
+    "CallableType.type_guard", "CallableType.type_is", "CallableType.unpack_kwargs", "CallableType.from_concatenate",
+    "CallableType.is_ellipsis_args", "CallableType.variables", "CallableType.name",
+    "TypedDictType.readonly_keys", "TypedDictType.required_keys", "Overloaded", "TypeAliasType.args", "NoneType",
+    "UninhabitedType", "TupleType", "UnionType.uses_pep604_syntax", "UnionType", "LiteralType", "TypeType", "UnpackType",
+    "AnyType.missing_import_name", "Parameters",
+    "Var.final_value", "Var.setter_type", "FuncDef.deprecated", "OverloadedFuncDef.setter_index", "TypeInfo.slots",
+    "TypeInfo.tuple_type", "TypeInfo.typeddict_type", "TypeInfo.declared_metaclass", "TypeInfo.abstract_attributes",
+    "TypeInfo.dataclass_transform_spec|FuncDef.dataclass_transform_spec", "TypeInfo.metadata", "TypeInfo.is_protocol",
+]
+
 CHILD = r'''
 import sys, os, json, time, hashlib, glob
 sys.setrecursionlimit(10000)
@@ -291,6 +391,7 @@ def walk_flags(tree):
                         ts = str(node.type)
                         # TypedDict item order is reported once, by the serialize() comparison (known finding)
                         rec["type"] = ts if "TypedDict(" not in ts else "<has TypedDict>"
+                        rec["type_detail"] = type_detail(node.type)
                     if isinstance(node, N.Var):
                         rec["final_value"] = repr(node.final_value)
                 else:
@@ -298,6 +399,161 @@ def walk_flags(tree):
             out[key] = rec
     table(tree.names, tree.fullname, tree.fullname)
     return out
+
+def type_detail(t):
+    """independent (not via serialize()/write()) summary of the optional fields of every type inside t"""
+    feats, seen = set(), set()
+    _type_rec(t, [], feats, seen, True)
+    return sorted(feats)
+
+def _type_rec(t0, ctx0, feats, seen, detail=False):
+    def rec(t, ctx):
+        if t is None or id(t) in seen:
+            return
+        if isinstance(t, (list, tuple, set, frozenset)):
+            for x in t:
+                rec(x, ctx)
+            return
+        if isinstance(t, dict):
+            for x in t.values():
+                rec(x, ctx)
+            return
+        if isinstance(t, T.ExtraAttrs):
+            seen.add(id(t))
+            if detail: feats.add("ExtraAttrs(%s;%s;%s)" % (t.mod_name, ",".join(sorted(t.attrs)), ",".join(sorted(t.immutable))))
+            if t.mod_name is not None: feats.add("ExtraAttrs.mod_name")
+            if t.attrs: feats.add("ExtraAttrs.attrs")
+            if t.immutable: feats.add("ExtraAttrs.immutable")
+            rec(t.attrs, ctx)
+            return
+        if not isinstance(t, T.Type):
+            return
+        seen.add(id(t))
+        n = type(t).__name__
+        def f(x): feats.add(n + "." + x)
+        if isinstance(t, T.Instance):
+            if t.args: f("args")
+            if t.last_known_value is not None: f("last_known_value")
+            if t.extra_attrs is not None:
+                f("extra_attrs")
+                for c in ctx: feats.add("Instance.extra_attrs@" + c)
+            rec(t.args, ctx); rec(t.last_known_value, ctx); rec(t.extra_attrs, ctx)
+        elif isinstance(t, T.TypeVarType):
+            if t.values: f("values")
+            if not (isinstance(T.get_proper_type(t.upper_bound), T.Instance) and T.get_proper_type(t.upper_bound).type.fullname == "builtins.object"): f("upper_bound")
+            if t.has_default(): f("default")
+            if t.variance != 0: f("variance")
+            rec(t.values, ctx); rec(t.upper_bound, ctx); rec(t.default, ctx)
+        elif isinstance(t, T.ParamSpecType):
+            if t.prefix.arg_types: f("prefix")
+            if t.has_default(): f("default")
+            if t.flavor != 0: f("flavor")
+            rec(t.prefix, ctx); rec(t.default, ctx); rec(t.upper_bound, ctx)
+        elif isinstance(t, T.TypeVarTupleType):
+            if t.has_default(): f("default")
+            if t.min_len: f("min_len")
+            rec(t.default, ctx); rec(t.upper_bound, ctx); rec(t.tuple_fallback, ctx)
+        elif isinstance(t, T.Parameters):
+            feats.add("Parameters")
+            if t.imprecise_arg_kinds: f("imprecise_arg_kinds")
+            rec(t.arg_types, ctx); rec(t.variables, ctx)
+        elif isinstance(t, T.CallableType):
+            for a in ("type_guard", "type_is"):
+                if getattr(t, a) is not None: f(a)
+            for a in ("unpack_kwargs", "from_concatenate", "imprecise_arg_kinds", "is_ellipsis_args", "implicit", "is_bound"):
+                if getattr(t, a): f(a)
+            if t.variables: f("variables")
+            if t.name is not None: f("name")
+            if t.instance_type is not None: f("instance_type")
+            rec(t.arg_types, ctx); rec(t.ret_type, ctx); rec(t.variables, ctx); rec(t.type_guard, ctx); rec(t.type_is, ctx)
+            rec(t.fallback, ctx); rec(t.instance_type, ctx)
+        elif isinstance(t, T.Overloaded):
+            feats.add("Overloaded"); rec(t.items, ctx)
+        elif isinstance(t, T.TupleType):
+            feats.add("TupleType")
+            if t.implicit: f("implicit")
+            rec(t.items, ctx + ["tuple"]); rec(t.partial_fallback, ctx)
+        elif isinstance(t, T.TypedDictType):
+            feats.add("TypedDictType")
+            if t.readonly_keys: f("readonly_keys")
+            if t.required_keys and t.required_keys != set(t.items): f("required_keys")
+            if t.is_closed: f("is_closed")
+            rec(t.items, ctx); rec(t.fallback, ctx)
+        elif isinstance(t, T.UnionType):
+            feats.add("UnionType")
+            if t.uses_pep604_syntax: f("uses_pep604_syntax")
+            rec(t.items, ctx + ["union"])
+        elif isinstance(t, T.LiteralType):
+            feats.add("LiteralType"); rec(t.fallback, ctx)
+        elif isinstance(t, T.TypeType):
+            feats.add("TypeType")
+            if t.is_type_form: f("is_type_form")
+            rec(t.item, ctx)
+        elif isinstance(t, T.TypeAliasType):
+            feats.add("TypeAliasType")
+            if t.args: f("args")
+            rec(t.args, ctx)
+        elif isinstance(t, T.UnpackType):
+            feats.add("UnpackType"); rec(t.type, ctx)
+        elif isinstance(t, T.AnyType):
+            if t.missing_import_name is not None: f("missing_import_name")
+            if t.source_any is not None: f("source_any")
+        else:
+            feats.add(n)
+    rec(t0, ctx0)
+
+def type_features(tree, feats):
+    """which optional fields of types / nodes are NON-default in this (fresh) tree"""
+    seen = set()
+    def rec(t, ctx):
+        _type_rec(t, ctx, feats, seen)
+    def table(names):
+        for name in names:
+            sym = names[name]
+            node = sym.node
+            if name == "__builtins__" or sym.no_serialize or node is None or id(node) in seen:
+                continue
+            if isinstance(node, N.MypyFile) or (node.fullname.rpartition(".")[0] != tree.fullname and not isinstance(node, N.TypeInfo) and "." in node.fullname
+                                                and not node.fullname.startswith(tree.fullname + ".")):
+                continue
+            seen.add(id(node))
+            parts = [node]
+            if isinstance(node, N.Decorator): parts = [node.func, node.var]
+            if isinstance(node, N.OverloadedFuncDef):
+                if node.setter_index is not None: feats.add("OverloadedFuncDef.setter_index")
+                if node.deprecated is not None: feats.add("OverloadedFuncDef.deprecated")
+                rec(node.type, [])
+                for it in node.items + ([node.impl] if node.impl else []):
+                    parts += [it.func, it.var] if isinstance(it, N.Decorator) else [it]
+            for p in parts:
+                if isinstance(p, N.Var):
+                    if p.final_value is not None: feats.add("Var.final_value")
+                    if p.setter_type is not None: feats.add("Var.setter_type")
+                    rec(p.type, []); rec(p.setter_type, [])
+                elif isinstance(p, N.FuncDef):
+                    if p.deprecated is not None: feats.add("FuncDef.deprecated")
+                    if p.dataclass_transform_spec is not None: feats.add("FuncDef.dataclass_transform_spec")
+                    if p.original_first_arg is not None: feats.add("FuncDef.original_first_arg")
+                    ty = p.type
+                    if isinstance(ty, T.CallableType):
+                        for a, k in zip(ty.arg_types, ty.arg_kinds):
+                            rec(a, ["arg_default"] if k.is_optional() else [])
+                        seen.discard(id(ty))
+                    rec(ty, [])
+                elif isinstance(p, N.TypeInfo):
+                    for a in ("slots", "tuple_type", "typeddict_type", "declared_metaclass", "alt_promote", "self_type", "deprecated", "dataclass_transform_spec"):
+                        if getattr(p, a) is not None: feats.add("TypeInfo." + a)
+                    for a in ("abstract_attributes", "metadata", "deletable_attributes", "_promote", "is_protocol", "is_enum", "is_named_tuple", "is_newtype", "is_final", "runtime_protocol"):
+                        if getattr(p, a): feats.add("TypeInfo." + a.lstrip("_"))
+                    rec([p.bases, p._promote, p.tuple_type, p.typeddict_type, p.declared_metaclass, p.metaclass_type, p.self_type, p.alt_promote, p.defn.type_vars], [])
+                    table(p.names)
+                elif isinstance(p, N.TypeAlias):
+                    rec(p.target, []); rec(p.alias_tvars, [])
+                elif isinstance(p, N.TypeVarExpr):
+                    rec([p.values, p.upper_bound, p.default], [])
+                elif isinstance(p, (N.ParamSpecExpr, N.TypeVarTupleExpr)):
+                    rec([p.upper_bound, p.default], [])
+    table(tree.names)
 
 def dump(tree):
     ser = tree.serialize()
@@ -340,6 +596,11 @@ for ff in (True, False):
                     m["datafile_hex"] = data.hex()
     if ff:
         fresh = d1
+        feats = set()
+        for i in spec.get("feature_modules", []):
+            if i in mods1:
+                type_features(mods1[i], feats)
+        res["features"] = sorted(feats)
     # warm run: every module is loaded from the cache (a new main module imports them all)
     names = [i for i in sorted(mods1)]
     main_src = "".join("import %s\n" % n for n in names if all(p.isidentifier() for p in n.split(".")))
@@ -375,7 +636,21 @@ for ff in (True, False):
                 diff(n1, n2, i, out)
                 res["problems"].append({"kind": "serialize-dump-differs", "fmt": fmt, "module": i, "diff": out})
         if b1 != b2:
-            res["problems"].append({"kind": "binary-dump-differs", "fmt": fmt, "module": i, "len": [len(b1), len(b2)]})
+            kind = "binary-dump-differs"
+            if ser1 == ser2:
+                # same content: is it only the order of a str->Type map (ExtraAttrs.attrs)?  re-dump both with sorted maps
+                orig = T.write_type_map
+                def wtm(data, value, _o=orig):
+                    _o(data, {k: value[k] for k in sorted(value)})
+                T.write_type_map = wtm
+                try:
+                    s1, s2 = WriteBuffer(), WriteBuffer()
+                    mods1[i].write(s1); tree.write(s2)
+                    if s1.getvalue() == s2.getvalue():
+                        kind = "type-map-order-differs"
+                finally:
+                    T.write_type_map = orig
+            res["problems"].append({"kind": kind, "fmt": fmt, "module": i, "len": [len(b1), len(b2)]})
         if fl1 != fl2:
             out = []
             diff(fl1, fl2, i, out)
@@ -622,6 +897,74 @@ def simple(ops: list[Any]) -> bool:
     return True
 
 
+def instance_tie(ctx: vlib.Ctx, exprs: list[str], expect: list[Any], names: list[str]) -> int:
+    """Types.v Instance model vs the real Instance.write / Instance.read on constructed instances: every fast-path
+    name and two ordinary names x {plain, extra_attrs (full / empty), last_known_value, args, everything}.
+    The model value is built from the OBJECT (abstraction function below), so a writer that takes a fast path
+    it must not take produces bytes that differ from the model's."""
+    from mypy import cache as C, nodes as N, types as T
+
+    def info(fullname: str) -> Any:
+        mod, _, name = fullname.rpartition(".")
+        ti = N.TypeInfo(N.SymbolTable(), N.ClassDef(name, N.Block([])), mod)
+        ti._fullname = fullname
+        return ti
+
+    def ab(t: Any) -> str:
+        if isinstance(t, T.NoneType):
+            return "VObj NONE_TYPE []"
+        if isinstance(t, T.LiteralType):
+            return f"VObj LITERAL_TYPE [{ab(t.fallback)}; VExt 3 {coq_literal(t.value)}]"
+        if isinstance(t, T.ExtraAttrs):
+            attrs = "; ".join(f"[VStr {coq_bytes(k.encode())}; {ab(t.attrs[k])}]" for k in t.attrs)   # write_type_map: insertion order
+            imm = "; ".join(f"[VStr {coq_bytes(k.encode())}]" for k in sorted(t.immutable))
+            mod = "VNone" if t.mod_name is None else f"VSome [VStr {coq_bytes(t.mod_name.encode())}]"
+            return f"VObj EXTRA_ATTRS [VRep [{attrs}]; VRep [{imm}]; {mod}]"
+        assert isinstance(t, T.Instance)
+        args = "; ".join(f"[{ab(a)}]" for a in t.args)
+        lkv = "VNone" if t.last_known_value is None else f"VSome [{ab(t.last_known_value)}]"
+        ex = "VNone" if t.extra_attrs is None else f"VSome [{ab(t.extra_attrs)}]"
+        return f"VObj INSTANCE [VStr {coq_bytes(t.type.fullname.encode())}; VRep [{args}]; {lkv}; {ex}]"
+    infos = {n: info(n) for n in ["builtins.str", "builtins.function", "builtins.int", "builtins.bool", "builtins.object",
+                                  "types.ModuleType", "pkg.mod.Cls"]}
+    i_int, i_str = T.Instance(infos["builtins.int"], []), T.Instance(infos["builtins.str"], [])
+    n = 0
+    for name, ti in infos.items():
+        full = T.ExtraAttrs({"x": i_int, "f": T.Instance(infos["pkg.mod.Cls"], [i_str])}, {"x"}, "pkg.b")
+        empty = T.ExtraAttrs({}, None, None)
+        lit = T.LiteralType(1, i_int)
+        variants = {
+            "plain": T.Instance(ti, []),
+            "extra": T.Instance(ti, [], extra_attrs=full),
+            "extra-empty": T.Instance(ti, [], extra_attrs=empty),
+            "lkv": T.Instance(ti, [], last_known_value=lit),
+            "args": T.Instance(ti, [i_int, T.NoneType()]),
+            "all": T.Instance(ti, [i_str], last_known_value=T.LiteralType("é", i_str), extra_attrs=full),
+        }
+        for vn, inst in variants.items():
+            buf = C.WriteBuffer()
+            inst.write(buf)
+            real = buf.getvalue()
+            back = T.read_type(C.ReadBuffer(real))
+            ok = isinstance(back, T.Instance) and back.type_ref == name and len(back.args) == len(inst.args) \
+                and (back.extra_attrs is None) == (inst.extra_attrs is None) \
+                and (back.last_known_value is None) == (inst.last_known_value is None) \
+                and (inst.extra_attrs is None or (sorted(back.extra_attrs.attrs) == sorted(inst.extra_attrs.attrs)
+                                                  and back.extra_attrs.immutable == inst.extra_attrs.immutable
+                                                  and back.extra_attrs.mod_name == inst.extra_attrs.mod_name)) \
+                and (inst.last_known_value is None or back.last_known_value.value == inst.last_known_value.value)
+            if not ok:
+                ctx.violation(f"instance-roundtrip:{name}:{vn}", f"read_type(Instance.write(i)) loses data for a {name} instance ({vn}: "
+                              f"args={len(inst.args)}, last_known_value={inst.last_known_value}, extra_attrs={inst.extra_attrs!r})",
+                              {"kind": "instance", "type": name, "variant": vn, "bytes": real.hex()})
+            exprs.append(f"write_type json_write 8 ({ab(inst)})")
+            expect.append(list(real))
+            names.append(f"Instance {name} {vn}")
+            n += 1
+    ctx.cov["instance_tie_cases"] = n
+    return n
+
+
 def schema_stage(ctx: vlib.Ctx, res: dict[str, Any]) -> None:
     """extracted helper / record schemas executed by the model vs the real write_X / read_X"""
     sys.path.insert(0, vlib.REPO)
@@ -746,6 +1089,7 @@ def schema_stage(ctx: vlib.Ctx, res: dict[str, Any]) -> None:
         if repr(back) != repr(lv) and not (isinstance(lv, SentinelValue) and back.fullname == lv.fullname and back.name == lv.name):
             ctx.violation(f"literal-roundtrip:{lv!r}"[:80], "read_literal(write_literal(v)) != v", {"kind": "literal", "value": repr(lv)})
         n_ext += 1
+    n_ext += instance_tie(ctx, exprs, expect, names)
     out = ctx.eval_cases("schema", HEADER, exprs, per_file=150)
     if out is None:
         return
@@ -850,7 +1194,7 @@ def roundtrip_stage(ctx: vlib.Ctx) -> None:
                         mod = mod[:-9]
                     fm[mod] = os.path.join("src", rel)   # relative to the child's cwd: MypyFile.path is part of the serialized interface
                 jobs.append((f"prog:{pn}{tag}", {"root": root, "modules": [], "files": fm, "mypy_path": ["src"], "allow_errors": True,
-                                                 "keep_data_below": 0 if tag else 70000}, seed))
+                                                 "keep_data_below": 0 if tag else 70000, "feature_modules": sorted(fm)}, seed))
         with ThreadPoolExecutor(max_workers=min(vlib.NPROC, 8)) as ex:
             results = list(ex.map(lambda j: run_child(j[1], j[2], work), jobs))
         by_name: dict[str, dict[str, Any]] = {}
@@ -874,6 +1218,12 @@ def roundtrip_stage(ctx: vlib.Ctx) -> None:
                                   f"module {pb['module']}: TypedDict item order of the {pb['fmt']}-reloaded tree differs from the freshly analysed one "
                                   f"(write_type_map sorts keys; JSON keeps declaration order): {pb['diff'][:1]}",
                                   {"kind": kind, "job": name, **pb, "repro": TD_REPRO})
+                elif kind == "type-map-order-differs":
+                    ctx.violation("extra-attrs-order-differs-between-formats",
+                                  f"module {pb['module']}: the {pb['fmt']}-reloaded tree has the entries of a str->Type map (ExtraAttrs.attrs of a module "
+                                  f"object) in a different order than the fresh tree: ExtraAttrs.serialize emits a JSON object (keys sorted by json_dumps), "
+                                  f"write_type_map keeps insertion order since b2ad2be",
+                                  {"kind": kind, "job": name, **pb, "fix": "notes/C11-fix-2.diff"})
                 elif kind == "build-errors":
                     ctx.broke("S", f"{name}: build reported errors", str(pb["errors"])[:500])
                 else:
@@ -901,6 +1251,14 @@ def roundtrip_stage(ctx: vlib.Ctx) -> None:
                 if m.get("datafile_eq_final_tree") is False:
                     ctx.violation(f"datafile-vs-final-tree:{mod}", f"module {mod}: bytes written to the cache during the build differ from the serialisation of the final tree",
                                   {"job": name, "module": mod})
+        feats: set[str] = set()
+        for job, r in by_name.items():
+            if job.startswith("prog:") and "@seed" not in job:
+                feats |= set(r.get("features", []))
+        missing = [f for f in REQUIRED_FEATURES if not any(x in feats for x in f.split("|"))]
+        ctx.cov["corpus_features"] = sorted(feats)
+        if missing and any(j.startswith("prog:") for j in by_name):
+            ctx.broke("S", "corpus coverage", f"optional fields no longer NON-default anywhere in the fresh trees of the program corpus: {missing}")
         model_file_stage(ctx, by_name)
         # determinism across hash seeds
         n_det = 0
